@@ -19,8 +19,8 @@ from .. import guards as G
 from .. import wire
 from ..model import AnalysisError, CArray, CScalar, CStructRef, ClassRef, EnumMember, Unknown, dotted, src
 
-TECHNIQUE = "AST dispatch-table totality + writer/reader segment symmetry + ctypes field/method shadow rule; abstract interpretation of small functions over an enumerated finite domain by the checker's own AST interpreter (static analysis)"
-ENGINES = ["model", "wire", "circuit"]
+TECHNIQUE = "AST dispatch-table totality + ctypes field/method shadow rule; every message class executed through its own __bytes__ and its dispatcher by the checker's AST interpreter over a ctypes model (static analysis; abstract execution)"
+ENGINES = ["model", "wire", "cmodel", "circuit"]
 EXPLANATION = (
     "Over backend/messages.py and lang/encoding.py: both dispatch tables are total over their type enums and map each type to a "
     "class whose TYPE is that type; the type byte is the first field (offset 0) written by every constructor and the byte the "
